@@ -32,7 +32,6 @@ import (
 // Known-finding signatures (see the final report).  When the driver lists a signature as a known
 // open finding, exactly that input class is left out of generation so the search continues behind it.
 const (
-	c11SigProfileLog = "profile-log-rule-panics"
 	c11SigProtoName  = "protocol-name-icmpv6-udplite-matches-proto-0"
 	c11SigDeadExit   = "split-at-unreachable-point-leaves-dead-exit-stub"
 )
@@ -522,9 +521,7 @@ type c11Gen struct {
 	allRules   []c11RuleAt
 	longLists  bool
 	noProtoNm  bool // known finding: leave out icmpv6/udplite names
-	noProfLog  bool // known finding: leave out log rules in profiles
 	exclProto  int
-	exclProfLg int
 }
 
 type c11RuleAt struct {
@@ -844,10 +841,6 @@ func (g *c11Gen) genProfiles(label string, max int) []Profile {
 	t := g.t
 	n := rapid.IntRange(0, max).Draw(t, label+".nProfiles")
 	actions := []string{"allow", "allow", "allow", "deny", "deny", "log", "pass"}
-	if g.noProfLog {
-		actions = []string{"allow", "allow", "allow", "deny", "deny", "pass"}
-		g.exclProfLg++
-	}
 	var out []Profile
 	for pi := 0; pi < n; pi++ {
 		pl := fmt.Sprintf("%s[%d]", label, pi)
@@ -1189,7 +1182,6 @@ func c11Bucket(n int) string {
 func c11RunCase(t *rapid.T, rec *ev.Recorder) {
 	g := &c11Gen{t: t}
 	g.noProtoNm = ev.Known(c11SigProtoName)
-	g.noProfLog = ev.Known(c11SigProfileLog)
 	cfg := c11Config{}
 	cfg.V6 = rapid.Bool().Draw(t, "ipv6")
 	g.v6 = cfg.V6
@@ -1275,9 +1267,6 @@ func c11RunCase(t *rapid.T, rec *ev.Recorder) {
 
 	for i := 0; i < g.exclProto; i++ {
 		rec.Excluded(c11SigProtoName)
-	}
-	if g.exclProfLg > 0 {
-		rec.Excluded(c11SigProfileLog)
 	}
 
 	// IP set ids from the real allocator; contents through the real entry encoders.
@@ -1487,8 +1476,10 @@ func c11MustCompile(t *testing.T, cfg c11Config, alloc *idalloc.IDAllocator, rul
 	return b.progs
 }
 
-// A profile containing a Log rule (valid v3 Profile; iptables renders a LOG rule for it).
-func TestVerifC11ConfirmProfileLogRule(t *testing.T) {
+// Regression (fixed finding profile-log-rule-panics, /repo 77dd8d7): a profile containing a Log
+// rule (valid v3 Profile; iptables renders a LOG rule for it) used to make Instructions() panic
+// with "empty action label".  Part of the unit's normal run.
+func TestVerifC11RegressionProfileLogRule(t *testing.T) {
 	ev.Quiet()
 	rules := Rules{Profiles: []Profile{{Name: "prof", Rules: []Rule{
 		{Rule: &proto.Rule{Action: "log"}},
@@ -1543,7 +1534,7 @@ func TestVerifC11ConfirmProtocolNames(t *testing.T) {
 func TestVerifC11ConfirmDeadExitStub(t *testing.T) {
 	ev.Quiet()
 	bad := 0
-	for mm := 2 * (defaultPerProgramJumpLimit/2 - 8); mm <= 2*(defaultPerProgramJumpLimit/2+2)+1; mm++ {
+	for mm := 2 * (defaultPerProgramJumpLimit/2 - 8); mm <= 2*(defaultPerProgramJumpLimit/2+2)+1 && bad == 0; mm++ {
 		m := mm / 2
 		pol := Policy{Kind: "NetworkPolicy", Namespace: "ns", Name: "np"}
 		if mm%2 == 1 {
